@@ -44,7 +44,9 @@ def quote(text):
 PREC = {"or": 1, "and": 2, "==": 4, "!=": 4, "<": 5, ">": 5, "<=": 5, ">=": 5, "+": 6, "-": 6, "*": 7, "%": 7}
 
 
-def expr(e, top=False):
+def expr(e, ctx=0):
+    """`ctx` = the lowest operator precedence that may appear here without parentheses (only consulted by the
+    precedence-relying 'binraw' nodes; 'bin' nodes always parenthesise themselves)."""
     k = e[0]
     if k == "num":
         return num_text(e[1]) + e[2]
@@ -61,27 +63,34 @@ def expr(e, top=False):
         o, c = ("[", "]") if br else ("(", ")")
         if not items:
             return o + c
+        # list items: a space-separated list binds tighter than any binary operator, so items are printed with the
+        # highest context (binary items get parentheses); comma lists bind loosest
+        ic = 0 if sep == "comma" else 99
         if len(items) == 1:
-            return o + expr(items[0]) + ("," if sep == "comma" or not br else "") + c
-        return o + (", " if sep == "comma" else " ").join(expr(i) for i in items) + c
+            return o + expr(items[0], ic) + ("," if sep == "comma" or not br else "") + c
+        return o + (", " if sep == "comma" else " ").join(expr(i, ic) for i in items) + c
     if k == "map":
         return "(" + ", ".join("%s: %s" % (expr(a), expr(b)) for a, b in e[1]) + ")"
     if k == "bin":
-        # always parenthesise nested binary operations explicitly unless `raw` printing is requested by
-        # the generator through ('binraw', ...) which relies on precedence
-        return "(%s %s %s)" % (expr(e[2]), e[1], expr(e[3]))
+        # explicit parentheses around the operation; the operands are printed in the operator's context so that
+        # 'binraw' children below get the parentheses they need
+        pr = PREC[e[1]]
+        return "(%s %s %s)" % (expr(e[2], pr), e[1], expr(e[3], pr + 1))
     if k == "binraw":
-        return "%s %s %s" % (expr(e[2]), e[1], expr(e[3]))
+        # relies on precedence and left associativity: parenthesised only when the context binds tighter
+        pr = PREC[e[1]]
+        t = "%s %s %s" % (expr(e[2], pr), e[1], expr(e[3], pr + 1))
+        return "(%s)" % t if pr < ctx else t
     if k == "not":
-        return "not %s" % expr(e[1])
+        return "not %s" % expr(e[1], 99)
     if k == "neg":
-        return "-%s" % expr(e[1]) if e[1][0] in ("var", "paren", "call") else "(-1 * %s)" % expr(e[1])
+        return "-%s" % expr(e[1], 99) if e[1][0] in ("var", "paren", "call") else "(-1 * %s)" % expr(e[1], 8)
     if k == "paren":
         return "(%s)" % expr(e[1])
     if k == "call":
         args = [expr(a) for a in e[2]] + ["$%s: %s" % (n, expr(v)) for n, v in e[3]]
         if e[4] is not None:
-            args.append(expr(e[4]) + "...")
+            args.append(expr(e[4], 99) + "...")
         return "%s(%s)" % (e[1], ", ".join(args))
     if k == "istr":
         out = []
@@ -89,6 +98,26 @@ def expr(e, top=False):
             out.append("".join(_ESC.get(c, c) for c in p) if isinstance(p, str) else "#{%s}" % expr(p))
         return '"' + "".join(out) + '"'
     raise ValueError(k)
+
+
+def relax(e, rng, p):
+    """copy of expression `e` in which each 'bin' node becomes a precedence-relying 'binraw' node with probability p"""
+    if not isinstance(e, tuple):
+        return e
+    k = e[0]
+    if k == "bin":
+        return ("binraw" if rng.chance(p) else "bin", e[1], relax(e[2], rng, p), relax(e[3], rng, p))
+    if k == "list":
+        return ("list", [relax(i, rng, p) for i in e[1]], e[2], e[3])
+    if k == "map":
+        return ("map", [(relax(a, rng, p), relax(b, rng, p)) for a, b in e[1]])
+    if k in ("not", "neg", "paren"):
+        return (k, relax(e[1], rng, p))
+    if k == "call":
+        return ("call", e[1], [relax(a, rng, p) for a in e[2]], [(n, relax(v, rng, p)) for n, v in e[3]], None if e[4] is None else relax(e[4], rng, p))
+    if k == "istr":
+        return ("istr", [x if isinstance(x, str) else relax(x, rng, p) for x in e[1]])
+    return e
 
 
 def params(ps, rest):
